@@ -188,6 +188,7 @@ def check(I, spec, opts, os_, leaf, waited, sh, tty, capture):
         leaked = sorted(fd for fd in cur if fd not in ini)
         lost = sorted(fd for fd in ini if fd not in cur)
         changed = sorted(fd for fd in ini if fd in cur and cur[fd] is not ini[fd])
+        expect(I, not getattr(I, 'sigmask', None), 'shell-signal-mask-not-restored', dict(blocked=sorted(getattr(I, 'sigmask', ()))))
         expect(I, not leaked, 'shell-fd-leak', dict(leaked={fd: repr(cur[fd]) for fd in leaked}))
         expect(I, not lost and not changed, 'shell-fd-clobbered', dict(lost=lost, changed=changed))
         bad_target = spec.get('unopenable') and not any(s['builtin'] for s in spec['stages'])
@@ -245,6 +246,7 @@ def check(I, spec, opts, os_, leaf, waited, sh, tty, capture):
         expect(I, not touches_bad, 'ran-despite-unopenable-target', None)
         fds = ex['fds']
         extra = sorted(fd for fd in fds if fd > 2)
+        expect(I, not getattr(I, 'sigmask', None), 'child-inherits-blocked-signals', dict(stage=k, blocked=sorted(getattr(I, 'sigmask', ()))))
         expect(I, not extra, 'child-inherits-fd', dict(stage=k, extra={fd: repr(fds[fd]) for fd in extra}))
         got = tuple(objkey(fds.get(i), n, here_id) for i in (0, 1, 2))
         expect(I, got[0] == fin, 'child-stdin', dict(stage=k, got=got[0], want=fin))
